@@ -81,6 +81,11 @@ class BufferedByteReceiveStream(ByteReceiveStream):
             # With a bytes-oriented object stream, we need to handle any surplus bytes
             # we get from the receive() call
             chunk = await self.receive_stream.receive()
+            while not chunk:
+                # An object stream may deliver empty chunks, but a byte stream must
+                # never return an empty bytes object
+                chunk = await self.receive_stream.receive()
+
             if len(chunk) > max_bytes:
                 # Save the surplus bytes in the buffer
                 self._buffer.extend(chunk[max_bytes:])
